@@ -51,6 +51,13 @@ class C13(object):
             "Sequences of 1-5 blahut_arimoto calls in one process (rd-seq) on sources over 2-4 letters that may contain "
             "letters of probability exactly 0 (Hamming and residual-entropy distortion), every call of "
             "the sequence certified on its own. "
+            "channel_capacity_joint through its options (joint-call): the joint built from a channel and an input law "
+            "(uniform, positive, with impossible letters), input / output letters spread over one or two variables, an "
+            "optional further variable, the variables in any positions and listed in any order, tuple or string outcomes, "
+            "indices / names with rv_mode left out or given, sparse or dense, marginal=True / False / left out, linear or "
+            "log base. blahut_arimoto / blahut_arimoto_ib with "
+            "`restarts`, `max_iters`, `distortion` / `divergence` left to the library defaults or passed (rd-opt, ib-opt; "
+            "restarts 1, 2, 3, 5, 40). "
             "Non-trivial = at least 2 inputs and 2 outputs with a non-degenerate channel")
     tolerances = {'reported value = definition on the returned input / joint': '1e-7',
                   'capacity duality gap': '<= 1e-3 max(1, C) (the code stops when successive values agree to rtol 1e-7 / atol 1e-9, which does not bound the gap tighter)',
@@ -71,6 +78,16 @@ class C13(object):
                 yield self.gen_capacity_call(rng2)
             else:
                 yield self.gen_rd_seq(rng2)
+        # Options of the public entry points that the cases above leave at one value. Again a generator of its own.
+        rng3 = random.Random(rng.getrandbits(64))
+        for _ in range(60 if tier == 'quick' else 2500):
+            u = rng3.random()
+            if u < 0.5:
+                yield self.gen_joint_call(rng3)
+            elif u < 0.85:
+                yield self.gen_rd_opt(rng3)
+            else:
+                yield self.gen_ib_opt(rng3, tier)
 
     # -- channel_capacity through every documented argument shape ---------------------------------------------------
     @staticmethod
@@ -174,6 +191,55 @@ class C13(object):
                           'beta': rng.choice([0.0, 0.5, 1.0, 2.0, 3.5, 5.0, 8.0]),
                           'max_iters': rng.choice([100, 100, 100, 3])})
         return {'kind': 'rd-seq', 'steps': steps}
+
+    # -- channel_capacity_joint through every option -------------------------------------------------------------------
+    def gen_joint_call(self, rng):
+        P = self.rand_channel(rng)
+        n, m = len(P), len(P[0])
+        style, w = self.rand_marginal(rng, n)
+        while style == 'tiny' or (style == 'point' and n > 1 and rng.random() < 0.75):
+            # (joint cells at 1e-11 are below dit's null tolerance and would be trimmed: a different channel)
+            style, w = self.rand_marginal(rng, n)
+        call = {'w_style': style, 'w': w,
+                'xsplit': n >= 3 and rng.random() < 0.5, 'ysplit': m >= 3 and rng.random() < 0.5,
+                'extra': rng.choice([None, None, 'coin', 'parity']),
+                'klass': rng.choice(['tuple', 'str']),
+                'names': rng.random() < 0.5,
+                'listed': rng.choice(['sorted', 'reversed']),
+                'marginal': rng.choice([False, 'default']),
+                'base': rng.choice([None, None, 2, 'e', 10, 0.5]),
+                'dense': rng.random() < 0.3}
+        roles = ['x0'] + (['x1'] if call['xsplit'] else []) + ['y0'] + (['y1'] if call['ysplit'] else [])
+        if call['extra']:
+            roles.append('z')
+        rng.shuffle(roles)
+        call['roles'] = roles
+        call['rv_mode'] = rng.choice([None, 'names', 'indices'] if call['names'] else [None, 'indices'])
+        pool = list('ABCDE')
+        rng.shuffle(pool)
+        call['rv_names'] = pool[:len(roles)]
+        return {'kind': 'capacity-joint', 'P': P, 'call': call}
+
+    # -- blahut_arimoto / blahut_arimoto_ib with their options left out or passed -----------------------------------
+    def gen_rd_opt(self, rng):
+        n = rng.randint(2, 4)
+        dist = rng.choice(['default', 'default', 'hamming', 'residual'])
+        return {'kind': 'rd-opt', 'p': self.rand_source(rng, n, rng.random() < 0.3), 'dist': dist,
+                'beta': rng.choice([0.0, 0.5, 1.0, 2.0, 3.5, 5.0, 8.0]),
+                'restarts': rng.choice([None, None, 1, 2, 3, 5, 40]),
+                'max_iters': rng.choice([None, None, 100, 3, 250])}
+
+    def gen_ib_opt(self, rng, tier):
+        shape = rng.choice([(2, 2), (2, 3), (3, 2)])
+        pv, _ = gen.rand_prob_vector(rng, shape[0] * shape[1], 'small')
+        while any(p == 0 for p in pv):
+            pv, _ = gen.rand_prob_vector(rng, shape[0] * shape[1], 'uneven')
+        # (the library default of 250 restarts takes seconds: on the smaller shapes and seldom)
+        restarts = rng.choice([None, 1, 1, 2, 2, 3, 5, 40] if shape[0] == 2 else [1, 1, 2, 2, 3, 5, 40])
+        return {'kind': 'ib-opt', 'shape': list(shape), 'pxy': [str(p) for p in pv],
+                'beta': rng.choice([0.5, 2.0, 5.0, 8.0, 12.0, 20.0]),
+                'restarts': restarts, 'max_iters': rng.choice([None, None, 100, 3, 250]),
+                'divergence': rng.choice(['default', 'relative_entropy'])}
 
     def gen_base(self, rng, tier):
         n_cases = 100 if tier == 'quick' else 6000
@@ -362,6 +428,8 @@ class C13(object):
     def run_capacity_joint(self, case, drv, r):
         dit = import_dit()
         from dit.algorithms.channelcapacity import channel_capacity_joint
+        if case.get('call'):
+            return self.run_capacity_joint_call(case, drv, r)
         P = [[Fraction(v) for v in row] for row in case['P']]
         n, m = len(P), len(P[0])
         outs, pmf = [], []
@@ -376,6 +444,127 @@ class C13(object):
         used = [j for j in range(m) if any(P[i][j] > 0 for i in range(n))]
         Pm = [[float(P[i][j]) for j in used] for i in range(n)]
         self.certify_capacity(drv, Pm, float(cc), [float(v) for v in marg.pmf], r)
+
+    def run_capacity_joint_call(self, case, drv, r):
+        """channel_capacity_joint(dist, input_, output, marginal, rv_mode) on the joint w(x) P(y|x), in the presentation the
+        case names. Whatever the input law w, the positions and the number of the variables carrying x and y, a further
+        variable, names / indices, the order in which the variables are listed, sparse / dense storage and the base, the
+        value is the capacity of P restricted to the input letters that can occur, and with marginal=True the second
+        value is a distribution over those letters that achieves it. With marginal=False (or left out) a single number
+        comes back: it is certified with the input returned by the marginal=True call on the same arguments."""
+        dit = import_dit()
+        from dit.algorithms.channelcapacity import channel_capacity_joint
+        call = case['call']
+        P = [[Fraction(v) for v in row] for row in case['P']]
+        n, m = len(P), len(P[0])
+        w = [Fraction(v) for v in call['w']]
+        roles = call['roles']
+        xs, ys = bool(call['xsplit']), bool(call['ysplit'])
+        as_str = call['klass'] == 'str'
+        cells = {}
+        for i in range(n):
+            for j in range(m):
+                pij = w[i] * P[i][j]
+                if pij == 0 and not call['dense']:
+                    continue
+                if call['extra'] == 'coin':
+                    zs = [(0, Fraction(1, 4)), (1, Fraction(3, 4))]
+                elif call['extra'] == 'parity':
+                    zs = [((i + j) % 2, Fraction(1))]
+                else:
+                    zs = [(None, Fraction(1))]
+                for z, pz in zs:
+                    val = {'x0': i // 2 if xs else i, 'x1': i % 2, 'y0': j // 2 if ys else j, 'y1': j % 2, 'z': z}
+                    o = tuple(val[ro] for ro in roles)
+                    o = ''.join(str(v) for v in o) if as_str else o
+                    cells[o] = cells.get(o, Fraction(0)) + pij * pz
+        outs = sorted(cells)
+        d = dit.Distribution(outs, [float(cells[o]) for o in outs], trim=False)
+        if call['dense']:
+            d.make_dense()
+        if call['names']:
+            d.set_rv_names(call['rv_names'])
+        xpos = [k for k, ro in enumerate(roles) if ro[0] == 'x']
+        ypos = [k for k, ro in enumerate(roles) if ro[0] == 'y']
+        by_name = call['names'] and call['rv_mode'] != 'indices'
+        ref = (lambda ks: [call['rv_names'][k] for k in ks]) if by_name else (lambda ks: list(ks))
+        inp, out = ref(xpos), ref(ypos)
+        if call['listed'] == 'reversed':
+            inp, out = inp[::-1], out[::-1]
+        kw = {} if call['rv_mode'] is None else {'rv_mode': call['rv_mode']}
+        r.features += ['input-law=%s' % call['w_style'], 'x-vars=%d' % len(xpos), 'y-vars=%d' % len(ypos),
+                       'extra=%s' % call['extra'], 'outcomes=%s' % call['klass'],
+                       'addressed-by=%s' % ('names' if by_name else 'indices'), 'rv_mode=%s' % call['rv_mode'],
+                       'listed=%s' % call['listed'], 'dense=%s' % call['dense'], 'marginal-arg=%s' % call['marginal'],
+                       'base=%s' % call['base'], 'first-x-before-first-y=%s' % (xpos[0] < ypos[0])]
+        rows = [i for i in range(n) if w[i] > 0]
+        used = [j for j in range(m) if any(P[i][j] > 0 for i in rows)]
+        Pm = [[float(P[i][j]) for j in used] for i in rows]
+        r.nontrivial = len(rows) >= 2 and len(used) >= 2 and len(set(map(tuple, Pm))) >= 2
+
+        # (1) marginal=True: value and input distribution, on the linear joint and on its copy in a log base (the
+        # distribution that comes back is in the base of the joint; log-base joints used to get the linear optimum stored
+        # in a log-base distribution - repaired in 55253e2, judged since)
+        targets = [('linear', d)]
+        if call['base'] is not None:
+            targets.append(('base %s' % call['base'], d.copy(base=call['base'])))
+        pmf = None
+        for label, dd in targets:
+            got = channel_capacity_joint(dd, inp, out, marginal=True, **kw)
+            what = 'channel_capacity_joint(%s joint, marginal=True)' % label
+            if not (isinstance(got, tuple) and len(got) == 2 and hasattr(got[1], 'outcomes')):
+                r.oracle_fail = '%s returned %r, not (value, distribution)' % (what, got)
+                return
+            cc1, marg = got
+            try:
+                if marg.get_base() != dd.get_base():
+                    raise ValueError('base %r for a joint in base %r' % (marg.get_base(), dd.get_base()))
+                marg.validate()
+                mlin = marg.copy(base='linear')
+            except Exception as e:  # noqa
+                r.oracle_fail = ('the input distribution returned by %s (base %r, stored values %s) is not a valid '
+                                 'distribution in the base of the joint: %s: %s'
+                                 % (what, marg.get_base(), [float(v) for v in marg.pmf], type(e).__name__, str(e)[:80]))
+                return
+            pm = dict((i, 0.0) for i in rows)
+            for o, pv in zip(mlin.outcomes, mlin.pmf):
+                sy = [int(c) for c in o]      # the symbols of the variables of x, by increasing position
+                i = None
+                if len(sy) == len(xpos):
+                    digit = dict(zip([roles[k] for k in xpos], sy))
+                    i = 2 * digit['x0'] + digit['x1'] if xs else digit['x0']
+                if i not in pm:
+                    r.oracle_fail = ('%s returned an input distribution over %r: %r is not an input letter that can occur'
+                                     % (what, list(mlin.outcomes), o))
+                    return
+                pm[i] += float(pv)
+            pm = [pm[i] for i in rows]
+            self.certify_capacity(drv, Pm, float(cc1), pm, r)
+            if r.bad():
+                if r.oracle_fail:
+                    r.oracle_fail = '%s: %s' % (what, r.oracle_fail)
+                else:
+                    r.mismatch = '%s: %s' % (what, r.mismatch)
+                return
+            if pmf is None:
+                pmf, cc_lin = pm, float(cc1)     # (the linear joint's: the reference input for (2))
+
+        # (2) marginal=False / left out: a single number, the same capacity. On the linear joint, and on its copy in a
+        # log base.
+        mkw = dict(kw) if call['marginal'] == 'default' else dict(kw, marginal=False)
+        for label, dd in targets:
+            v = channel_capacity_joint(dd, inp, out, **mkw)
+            what = 'channel_capacity_joint(%s joint, marginal %s)' % (label, 'left out' if call['marginal'] == 'default' else '= False')
+            if isinstance(v, (tuple, list)) or np.ndim(v) != 0:
+                r.oracle_fail = '%s returned %r, not a single value' % (what, v)
+                return
+            self.certify_capacity(drv, Pm, float(v), pmf, r)
+            if r.bad():
+                if r.oracle_fail:
+                    r.oracle_fail = '%s, judged with the input returned for marginal=True (value %r): %s' % (what, cc_lin, r.oracle_fail)
+                else:
+                    r.mismatch = '%s: %s' % (what, r.mismatch)
+                return
 
     def run_closed(self, case, drv, r):
         from dit.algorithms.channelcapacity import channel_capacity
@@ -402,19 +591,29 @@ class C13(object):
         self.certify_capacity(drv, P, float(cc), pmf, r)
 
     # ------------------------------------------------------------------ rate distortion
-    def ba(self, p, beta, dist, max_iters=100):
+    def ba(self, p, beta, dist, max_iters=100, restarts=12):
+        """blahut_arimoto(p, beta, distortion, max_iters, restarts); dist 'default' / max_iters None / restarts None leave
+        the argument out (the documented defaults: Hamming distortion, 100 sweeps, 100 restarts)."""
         from dit.rate_distortion.blahut_arimoto import blahut_arimoto
         from dit.rate_distortion.distortions import hamming_distortion, residual_entropy_distortion
-        f = hamming_distortion if dist == 'hamming' else residual_entropy_distortion
+        kw = {}
+        if dist != 'default':
+            kw['distortion'] = hamming_distortion if dist == 'hamming' else residual_entropy_distortion
+        if restarts is not None:
+            kw['restarts'] = restarts
+        if max_iters is not None:
+            kw['max_iters'] = max_iters
         np.random.seed(12345)
         import dit.math
         dit.math.prng.seed(12345)
-        return blahut_arimoto(np.array(p, dtype=float), beta, distortion=f, restarts=12, max_iters=max_iters)
+        return blahut_arimoto(np.array(p, dtype=float), beta, **kw)
 
     def certify_rd(self, drv, p, beta, dist, res, q, r, converged=True):
         from dit.rate_distortion.distortions import residual_entropy_distortion
         q = np.array(q, dtype=float)
         n = len(p)
+        if dist == 'default':
+            dist = 'hamming'   # the documented default of `distortion`
         if dist == 'hamming':
             d = 1 - np.eye(n)
         else:
@@ -476,11 +675,37 @@ class C13(object):
         r.features += ['dist=%s' % dist, 'beta=%s' % beta]
         r.nontrivial = beta > 0
         mi_ = case.get('max_iters', 100)
-        r.features.append('max_iters=%s' % mi_)
+        rs_ = case.get('restarts', 12)
+        r.features.append('max_iters=%s' % ('default' if mi_ is None else mi_))
+        if 'restarts' in case:
+            r.features.append('restarts=%s' % ('default' if rs_ is None else rs_))
+        full = mi_ is None or mi_ >= 100
         # a run cut short by max_iters still has to report the rate and distortion OF THE JOINT IT RETURNS
-        res, q = self.ba(p, beta, dist, mi_)
-        out = self.certify_rd(drv, p, beta, dist, res, q, r, converged=mi_ >= 100)
-        if out and dist == 'hamming' and len(p) == 2 and not r.bad() and mi_ >= 100:
+        res, q = self.ba(p, beta, dist, mi_, rs_)
+        out = self.certify_rd(drv, p, beta, dist, res, q, r, converged=full)
+        if out and dist in ('hamming', 'default') and len(p) == 2 and not r.bad() and full:
+            self.bernoulli_closed_form(p, out, r)
+
+    def run_rd_opt(self, case, drv, r):
+        """blahut_arimoto with `distortion`, `max_iters`, `restarts` left to their defaults or passed (any number of
+        restarts from 1: the first start is the uniform channel, the second the constant one, the others random); the
+        same clauses as for every other call."""
+        p = [float(Fraction(v)) for v in case['p']]
+        beta, dist, mi_, rs_ = case['beta'], case['dist'], case['max_iters'], case['restarts']
+        r.features += ['dist=%s' % dist, 'beta=%s' % beta, 'max_iters=%s' % ('default' if mi_ is None else mi_),
+                       'restarts=%s' % ('default' if rs_ is None else rs_)]
+        if any(v == 0 for v in p):
+            r.features.append('source-with-zero')
+        r.nontrivial = beta > 0
+        full = mi_ is None or mi_ >= 100
+
+        def one_call():
+            res, q = self.ba(p, beta, dist, mi_, rs_)
+            return (float(res.rate), float(res.distortion)), np.array(q, dtype=float)
+        # (in a process of its own, like the sequences: sources with impossible letters are among these)
+        pair, q = self.in_child(one_call)
+        out = self.certify_rd(drv, p, beta, dist, core_rd_result(*pair), q, r, converged=full)
+        if out and dist in ('hamming', 'default') and len(p) == 2 and not r.bad() and full:
             self.bernoulli_closed_form(p, out, r)
 
     @staticmethod
@@ -681,6 +906,17 @@ class C13(object):
                 r.detail = dict(r.detail or {}, numpy_seed=sd, restarts=restarts)
                 return
 
+    def run_ib_opt(self, case, drv, r):
+        """blahut_arimoto_ib with `restarts`, `max_iters`, `divergence` left to their defaults or passed; one call, judged
+        by the same clauses as every other one."""
+        r.features += ['restarts=%s' % ('default' if case['restarts'] is None else case['restarts']),
+                       'max_iters=%s' % ('default' if case['max_iters'] is None else case['max_iters']),
+                       'divergence=%s' % case.get('divergence', 'default')]
+        r.nontrivial = True
+        self.run_ib_once(case, drv, r, 4321, case['restarts'])
+        if r.bad():
+            r.detail = dict(r.detail or {}, numpy_seed=4321, restarts=case['restarts'])
+
     def run_ib_once(self, case, drv, r, sd, restarts):
         from dit.rate_distortion.blahut_arimoto import blahut_arimoto_ib
         nx, ny = case['shape']
@@ -689,7 +925,16 @@ class C13(object):
         import dit.math
         dit.math.prng.seed(sd)
         np.random.seed(sd)
-        res, q = blahut_arimoto_ib(pxy, beta, restarts=restarts, max_iters=case.get('max_iters', 100))
+        mi_ = case.get('max_iters', 100)
+        kw = {}
+        if restarts is not None:
+            kw['restarts'] = restarts        # (None: the documented default, 250)
+        if mi_ is not None:
+            kw['max_iters'] = mi_            # (None: the documented default, 100)
+        if case.get('divergence', 'default') != 'default':
+            from dit.divergences.pmf import relative_entropy
+            kw['divergence'] = relative_entropy   # the documented default, passed
+        res, q = blahut_arimoto_ib(pxy, beta, **kw)
         q = np.array(q)
         if np.abs(q.sum(axis=2) - pxy).max() > 1e-9 or (q < -1e-12).any():
             r.oracle_fail = 'the (x, y) marginal of the returned joint is not the input'
@@ -711,7 +956,7 @@ class C13(object):
         if abs(float(res.distortion) - (ixy - ity)) > 1e-6:
             r.oracle_fail = 'reported distortion %r, E[KL(p(y|x)||q(y|t))] = I(X;Y) - I(T;Y) = %r' % (float(res.distortion), ixy - ity)
             return
-        if case.get('max_iters', 100) >= 100:
+        if mi_ is None or mi_ >= 100:
             # optimality for the distortion matrix of the returned joint, held fixed: d(x,t) = KL(p(y|x) || q(y|t))
             qty = q.sum(axis=0).T
             used = [t for t in range(qty.shape[0]) if qty[t].sum() > 1e-12]
